@@ -74,8 +74,19 @@ def run_export(case):
             link.unlink()
             res['same_dir_refused'] = same_dir_refused
             res['src_after_refusal_unchanged'] = _hash_dir(src) == before
+            if case.get('reexport'):
+                # the output directory already holds an older export whose cluster/template tables are
+                # stale (other row counts, other values): the export must replace them
+                np.random.seed(case.get('rs', 0))
+                m0 = EphysAlfCreator(m).convert(out, label=case.get('label', ''), ampfactor=case.get('factor', 1))
+                if m0 is not None:
+                    m0.close()
+                for p in sorted(out.iterdir()):
+                    if p.suffix == '.npy' and p.name.split('.')[0] in ('clusters', 'templates'):
+                        np.save(p, np.full((3,), 7, dtype=np.load(p).dtype))
             np.random.seed(case.get('rs', 0))
-            m2 = EphysAlfCreator(m).convert(out, label=case.get('label', ''), ampfactor=case.get('factor', 1))
+            m2 = EphysAlfCreator(m).convert(out, force=bool(case.get('reexport')), label=case.get('label', ''),
+                                            ampfactor=case.get('factor', 1))
             res['returned_model'] = m2 is not None
             if m2 is not None:
                 res['ret'] = dict(spike_times=[float(x) for x in m2.spike_times], spike_samples=[int(x) for x in m2.spike_samples],
